@@ -1176,6 +1176,26 @@ struct Program
             if (!near_limit
                 && (std::fabs(res.distance - expect) > 4 * 2.3e-16 * std::fabs(expect) || res.boundary != expect_b))
             {
+                // Both searches flip the senses of the crossed faces in order of distance. Where
+                // the ray passes through an edge/corner (two or more distinct surfaces at the
+                // same ray parameter) the order of the tied crossings -- and with it whether the
+                // volume's logic is left there -- depends on how many other intersections are in
+                // the sorted list: either answer describes the same point set. Untestable.
+                double dq = std::min(std::isfinite(res.distance) ? res.distance : unl.distance, unl.distance);
+                double q[3] = {p[0] + dq * d[0], p[1] + dq * d[1], p[2] + dq * d[2]};
+                double tq = g.tol_at(q);
+                RefResult rq = g.loc->locate(q, ld(K_TOL * tq));
+                bool edge = false;
+                for (auto const& ns : rq.near)
+                    if (ns.surface != rq.nearest.surface || ns.universe != rq.nearest.universe
+                        || ns.level != rq.nearest.level)
+                        edge = true;
+                if (edge)
+                {
+                    cx.rep.inconclusive("untestable: limited vs unlimited search differ where the ray passes through an edge/corner");
+                    dead = true;
+                    return;
+                }
                 violation("C03/" + kind + "/max-truncation/" + flag_class(g, claimed.back().first, claimed.back().second),
                           "find_next_step(max) != min(unlimited, max) or wrong boundary flag",
                           json{{"max", maxd}, {"unlimited", unl.distance}, {"unlimited_boundary", unl.boundary},
